@@ -325,7 +325,9 @@ enum Want {
     NoSlot(i64),
 }
 
-struct Rendered { src: String, mapfile: String, wants: Vec<(String, Want)> }
+/// `must_warn`: the source asks for something the documented semantics drop (MSG table entries beyond
+/// `table_len`); a successful compile must then at least carry a warning.
+struct Rendered { src: String, mapfile: String, wants: Vec<(String, Want)>, must_warn: Option<&'static str> }
 
 struct Ov<'a>(&'a [Dev]);
 impl<'a> Ov<'a> {
@@ -376,7 +378,7 @@ fn probe_script_body(c: &SCfg, ov: &Ov, map: &mut MapB, key: &str, wants: &mut V
     let f = |n: &str| format!("{}{n}", c.pfx);
     let mut s = String::new();
     let mut k = 0usize;
-    let mut push_common = |wants: &mut Vec<(String, Want)>, k: usize, time: i64, opcode: i64| {
+    let push_common = |wants: &mut Vec<(String, Want)>, k: usize, time: i64, opcode: i64| {
         wants.push((format!("{key}.i{k}.time"), Want::Int(time)));
         wants.push((format!("{key}.i{k}.opcode"), Want::Int(opcode)));
     };
@@ -555,7 +557,7 @@ fn render_anm(cl: &Class, ov: &Ov) -> Rendered {
         w.push((format!("e{e}.num_scripts"), Want::Int(n_scripts)));
         w.push((format!("e{e}.n_scripts"), Want::Int(n_scripts)));
     }
-    Rendered { src: s, mapfile: map.render(), wants: w }
+    Rendered { src: s, mapfile: map.render(), wants: w, must_warn: None }
 }
 
 fn render_std(cl: &Class, ov: &Ov) -> Rendered {
@@ -637,7 +639,7 @@ fn render_std(cl: &Class, ov: &Ov) -> Rendered {
     s += "script main {\n";
     s += &probe_script_body(sc, ov, &mut map, "main", &mut w);
     s += "}\n";
-    Rendered { src: s, mapfile: map.render(), wants: w }
+    Rendered { src: s, mapfile: map.render(), wants: w, must_warn: None }
 }
 
 fn render_msg(cl: &Class, ov: &Ov) -> Rendered {
@@ -668,14 +670,15 @@ fn render_msg(cl: &Class, ov: &Ov) -> Rendered {
     for k in 0..n {
         let key = format!("s{k}");
         s += &format!("script s{k} {{\n");
-        // the walker only finds scripts the table refers to
+        // the walker only finds scripts the table refers to, and the last one it finds runs to the end of the file
         let mut sink = vec![];
-        let dest = if k < eff_len { &mut w } else { &mut sink };
+        let dest = if k < eff_len && (eff_len >= n || k + 1 < eff_len) { &mut w } else { &mut sink };
         if k == 0 { s += &probe_script_body(sc, ov, &mut map, &key, dest); } else { s += &simple_script_body(sc, &mut map, &key, dest); }
         s += "}\n";
     }
     w.push(("n_scripts".into(), Want::Int(n.min(eff_len))));
-    Rendered { src: s, mapfile: map.render(), wants: w }
+    let must_warn = if eff_len < n { Some("table entries beyond table_len") } else { None };
+    Rendered { src: s, mapfile: map.render(), wants: w, must_warn }
 }
 
 fn render_mission(cl: &Class, ov: &Ov) -> Rendered {
@@ -716,7 +719,7 @@ fn render_mission(cl: &Class, ov: &Ov) -> Rendered {
     }
     w.push(("num_entries".into(), Want::Int(n)));
     w.push(("n_entries".into(), Want::Int(n)));
-    Rendered { src: s, mapfile: String::new(), wants: w }
+    Rendered { src: s, mapfile: String::new(), wants: w, must_warn: None }
 }
 
 fn render_ecl(cl: &Class, ov: &Ov) -> Rendered {
@@ -742,7 +745,7 @@ fn render_ecl(cl: &Class, ov: &Ov) -> Rendered {
     w.push(("n_subs".into(), Want::Int(n_subs)));
     w.push(("n_timelines".into(), Want::Int(n_tl)));
     if cl.game != Game::Th06 { w.push(("num_timelines".into(), Want::Int(n_tl))); }
-    Rendered { src: s, mapfile: map.render(), wants: w }
+    Rendered { src: s, mapfile: map.render(), wants: w, must_warn: None }
 }
 
 // =============================================================================================
@@ -983,7 +986,7 @@ fn run_case(cl: &Class, devs: &[Dev], corrupt: Option<&str>) -> CaseResult {
     if dec.text.is_none() {
         if let Some(p) = &dec.panic {
             res.readback = format!("truth PANICKED reading its own output: {}", p.text);
-            unreadable = Some((format!("C03:{}", p.signature()), res.readback.clone()));
+            unreadable = Some((format!("C03:unreadable-output:{}:{}", cl.name, label), res.readback.clone()));
         } else {
             res.readback = format!("truth cannot read its own output: {}", head(&dec.diag, 3));
             unreadable = Some((format!("C03:unreadable-output:{}:{}", cl.name, label), res.readback.clone()));
@@ -994,12 +997,22 @@ fn run_case(cl: &Class, devs: &[Dev], corrupt: Option<&str>) -> CaseResult {
     // (ii) independent walk + field comparison
     match probe(cl, &bytes) {
         Err(e) => {
-            res.outcome = "m2-cannot-walk-output";
             res.mismatches.push(Mismatch { key: "<whole file>".into(), requested: "a well-formed file".into(), stored: format!("M2 walker: {e}") });
-            res.failure = Some((format!("C03:silent-change:{}:{}", cl.name, label), format!("compiled file is malformed for the independent walker: {e}")));
+            if unreadable.is_some() {
+                // neither truth nor the independent walker can read the file
+                res.outcome = if dec.panic.is_some() { "unreadable-output(truth-panics)" } else { "unreadable-output" };
+                res.failure = Some((format!("C03:unreadable-output:{}:{}", cl.name, label), format!("{}; independent walker: {e}", res.readback)));
+            } else {
+                res.outcome = "m2-cannot-walk-output";
+                res.failure = Some((format!("C03:m2-cannot-walk:{}:{}", cl.name, label), format!("truth re-reads the file but the independent walker cannot: {e}")));
+            }
         },
         Ok(p) => {
-            let (n, mm, no_slot) = compare(&r.wants, &p, corrupt);
+            let (n, mut mm, no_slot) = compare(&r.wants, &p, corrupt);
+            let warned = out.diag.lines().any(|l| l.starts_with("warning"));
+            if let Some(what) = r.must_warn {
+                if !warned { mm.push(Mismatch { key: what.to_string(), requested: "kept, or dropped with a diagnostic".into(), stored: "dropped without any diagnostic".into() }); }
+            }
             res.comparisons = n;
             res.no_slot = no_slot;
             if !mm.is_empty() {
@@ -1007,15 +1020,17 @@ fn run_case(cl: &Class, devs: &[Dev], corrupt: Option<&str>) -> CaseResult {
                 let m0 = &mm[0];
                 let mut label = label.clone();
                 // an instruction with opcode 0xFFFF is stored exactly but IS the script terminator of the format
-                if devs.len() == 1 && devs[0].field.ends_with("opcode") && (devs[0].value & 0xFFFF) == 0xFFFF && lenient_fits(devs[0].value, 16)
-                    && !mm.iter().any(|m| m.key.ends_with(".opcode")) { label += "=0xffff-is-terminator"; }
+                if devs.len() == 1 && (devs[0].field.ends_with("opcode") || devs[0].field.ends_with("opcode_map")) && (devs[0].value & 0xFFFF) == 0xFFFF
+                    && lenient_fits(devs[0].value, 16) && mm.iter().any(|m| m.stored.contains("absent")) { label += "=0xffff-is-terminator"; }
                 res.failure = Some((format!("C03:silent-change:{}:{}", cl.name, label), format!("C03:{}/{}: requested {} got {}", cl.name, m0.key, m0.requested, m0.stored)));
                 res.mismatches = mm;
             } else if let Some(u) = unreadable.clone() {
-                res.outcome = if dec.panic.is_some() { "panic-in-readback" } else { "unreadable-output" };
+                res.outcome = if dec.panic.is_some() { "unreadable-output(truth-panics)" } else { "unreadable-output" };
                 res.failure = Some(u);
             } else if !res.no_slot.is_empty() {
                 res.outcome = if out.diag.lines().any(|l| l.starts_with("warning")) { "no-slot-field-dropped-with-warning" } else { "no-slot-field-accepted-silently" };
+            } else if r.must_warn.is_some() {
+                res.outcome = "documented-drop-with-warning";
             } else {
                 res.outcome = "ok-exact";
             }
@@ -1184,12 +1199,13 @@ pub fn run(tier: &str) -> Report {
     rep.rule = "the deviating value does not fit the stored width of its field (integer outside [-2^(w-1), 2^w-1]; count above the count field's maximum; string/blob longer than the size field or buffer can describe); fitting values are the control group".into();
 
     let mut failure_counts: BTreeMap<String, u64> = BTreeMap::new();
+    let mut witness_table: Vec<Value> = vec![];
     for (sig, v) in &failures {
         failure_counts.insert(sig.clone(), v.len() as u64);
         // minimal witness: fewest deviations, smallest |value|, shortest source
         let pick = v.iter().min_by_key(|&&(idx, is_pair)| {
             let (it, r) = if is_pair { (&pair_items[idx], pair_results[idx].as_ref().unwrap()) } else { (&items[idx], results[idx].as_ref().unwrap()) };
-            (it.devs.len(), it.devs.iter().map(|d| d.value.unsigned_abs()).max().unwrap_or(0), r.src_len)
+            (it.devs.len(), it.devs.iter().any(|d| d.value < 0), it.devs.iter().map(|d| d.value.unsigned_abs()).max().unwrap_or(0), r.src_len)
         }).unwrap();
         let (it, r) = if pick.1 { (&pair_items[pick.0], pair_results[pick.0].as_ref().unwrap()) } else { (&items[pick.0], results[pick.0].as_ref().unwrap()) };
         let cl = &cls[it.class];
@@ -1197,8 +1213,11 @@ pub fn run(tier: &str) -> Report {
         let all_vals: Vec<String> = v.iter().take(40).map(|&(idx, p)| { let it = if p { &pair_items[idx] } else { &items[idx] }; it.devs.iter().map(|d| d.value.to_string()).collect::<Vec<_>>().join("&") }).collect();
         detail["all_failing_values"] = json!(all_vals);
         detail["occurrences"] = json!(v.len());
+        witness_table.push(json!({"signature": sig, "witness": it.devs.iter().map(|d| format!("{}={}", d.field, d.value)).collect::<Vec<_>>(),
+            "what": r.failure.as_ref().unwrap().1.chars().take(300).collect::<String>(), "all_failing_values": detail["all_failing_values"], "readback": r.readback.chars().take(160).collect::<String>()}));
         rep.fail(sig.clone(), detail);
     }
+    rep.extra.insert("witness_table".into(), json!(witness_table));
     rep.extra.insert("failure_counts".into(), json!(failure_counts));
     rep.extra.insert("rejections_of_fitting_values".into(), json!(unexpected_rejections));
     rep.extra.insert("fields_without_a_slot".into(), json!(no_slot_seen));
